@@ -2,7 +2,7 @@
    patched variant of the operator wrapper. *)
 From Coq Require Import ZArith List Bool Lia.
 From PTK Require Import Lib.Sx Lib.Py Model.Document Model.BufferEdit Model.C02_DocQueries
-  Model.C08_ViOps Model.C08_TextObjects Model.C08_Session Proofs.C08_ViFacts.
+  Model.C08_ViOps Model.C08_TextObjects Model.C08_Session Proofs.C08_ViFacts Proofs.C08_Failed.
 Import ListNotations.
 Open Scope Z_scope.
 
@@ -24,41 +24,68 @@ Definition with_arg (s : kst) (a : option Z) : kst :=
 Lemma with_arg_same s : with_arg s (ks_arg s) = s.
 Proof. destruct s; reflexivity. Qed.
 
+(* a navigation-mode cursor: not after the last character of a non-empty line *)
+Definition nav_cursor (b : buf) : Prop := fix_vi_cursor b = b.
+
+(* the state the digit handlers leave the buffer in: untouched while an
+   operator is pending; in navigation mode the cursor fix-up runs, which is
+   the identity on a navigation cursor *)
+Definition digits_ok (s : kst) : Prop := ks_op s <> None \/ nav_cursor (vbuf (ks_vst s)).
+
+Lemma digit_buf_same s :
+  digits_ok s ->
+  match ks_op s with None => with_buf (ks_vst s) (fix_vi_cursor (vbuf (ks_vst s))) | Some _ => ks_vst s end
+  = ks_vst s.
+Proof.
+  intros [H|H]; destruct (ks_op s); try reflexivity; [contradiction|].
+  rewrite H. destruct (ks_vst s); reflexivity.
+Qed.
+
 (* digits only extend key_processor.arg *)
 Lemma run_digits p ds : forall s rest,
-  is_count (ks_arg s) ds -> vins (ks_vst s) = false ->
+  is_count (ks_arg s) ds -> vins (ks_vst s) = false -> digits_ok s ->
   run_keys_gen p s (map KD ds ++ rest) = run_keys_gen p (with_arg s (typed (ks_arg s) ds)) rest.
 Proof.
-  induction ds as [|d ds IH]; intros s rest Hc Hi.
+  induction ds as [|d ds IH]; intros s rest Hc Hi Hok.
   - cbn [map app typed]. rewrite with_arg_same. reflexivity.
-  - cbn [map app run_keys_gen]. unfold key_step_gen at 1.
+  - cbn [map app run_keys_gen]. unfold key_step_gen at 1. cbv zeta.
+    rewrite (digit_buf_same s Hok).
     destruct (ks_arg s) as [a|] eqn:Ea.
     + cbn [fst snd ks_vst]. change (0 =? 0) with true. rewrite Hi. cbn [negb andb].
-      rewrite IH by (cbn [ks_arg ks_vst is_count]; first [exact I | exact Hi]).
+      rewrite IH by (cbn [ks_arg ks_vst ks_op is_count digits_ok]; first [exact I | exact Hi | exact Hok]).
       cbn [ks_arg typed with_arg ks_vst ks_oparg ks_op ks_last]. reflexivity.
     + cbn [is_count] in Hc. destruct (d =? 0) eqn:Ed; [lia|].
       cbn [fst snd ks_vst]. change (0 =? 0) with true. rewrite Hi. cbn [negb andb].
-      rewrite IH by (cbn [ks_arg ks_vst is_count]; first [exact I | exact Hi]).
+      rewrite IH by (cbn [ks_arg ks_vst ks_op is_count digits_ok]; first [exact I | exact Hi | exact Hok]).
       cbn [ks_arg typed with_arg ks_vst ks_oparg ks_op ks_last]. reflexivity.
 Qed.
 
-Definition cleared (s : kst) : kst := mkks (ks_vst s) None None None (ks_last s).
+(* nothing pending any more; the cursor fix-up of navigation mode has run
+   (KeyProcessor._fix_vi_cursor_position runs after every handler) *)
+Definition cleared (s : kst) : kst :=
+  mkks (with_buf (ks_vst s) (fix_vi_cursor (vbuf (ks_vst s)))) None None None (ks_last s).
+
+Lemma cleared_nav s :
+  nav_cursor (vbuf (ks_vst s)) -> cleared s = mkks (ks_vst s) None None None (ks_last s).
+Proof.
+  intros H. unfold cleared. rewrite H. destruct s as [[b c r i] a oa op l]. reflexivity.
+Qed.
 
 (* <count> operator <count> Esc: nothing happens to the buffer and registers,
    and NO count or operator survives it (whatever was typed before), so the
    keys that follow behave as if the cancelled command had not been typed *)
 Lemma cancelled_operator p s ds1 k keys ds2 rest :
-  ks_op s = None -> vins (ks_vst s) = false ->
+  ks_op s = None -> vins (ks_vst s) = false -> nav_cursor (vbuf (ks_vst s)) ->
   is_count (ks_arg s) ds1 -> is_count None ds2 ->
   run_keys_gen p s (map KD ds1 ++ KO k keys :: map KD ds2 ++ KE :: rest) =
   run_keys_gen p (cleared s) rest.
 Proof.
-  intros Hop Hi H1 H2.
-  rewrite run_digits by assumption.
+  intros Hop Hi Hnav H1 H2.
+  rewrite run_digits by (try assumption; right; exact Hnav).
   cbn [run_keys_gen]. unfold key_step_gen at 1. cbn [with_arg ks_op ks_vst ks_arg ks_oparg ks_last].
   rewrite Hop. cbn [fst snd ks_vst]. change (0 =? 0) with true. rewrite Hi. cbn [negb andb].
-  rewrite run_digits by (cbn [ks_arg ks_vst]; assumption).
-  cbn [run_keys_gen]. unfold key_step_gen at 1. cbn [with_arg ks_vst ks_last].
+  rewrite run_digits by (cbn [ks_arg ks_vst ks_op]; try assumption; left; discriminate).
+  cbn [run_keys_gen]. unfold key_step_gen at 1. cbn [with_arg ks_vst ks_last with_buf vins].
   change (0 =? 0) with true. rewrite Hi. cbn [negb andb]. reflexivity.
 Qed.
 
@@ -141,3 +168,16 @@ Lemma failed_motion_pinned_not_noop :
    btext (vbuf (ks_vst (snd (key_step_pinned (pend [97; 98; 99; 32; 100; 101; 102] 4 OpIndent [62]) (KM (T_F 120))))))
    = [32; 32; 32; 32; 97; 98; 99; 32; 100; 101; 102]).
 Proof. vm_compute. repeat split. Qed.
+
+(* the wrapper's decision in terms of what /repo tests: the ghost flag matters
+   only for the text-object functions that return None on failure *)
+Lemma cancelled_spec m d n hc o failed :
+  text_object m d n hc = TO o failed ->
+  cancelled o failed = (none_family m && failed) || (is_excl (ttype o) && (tstart o =? tend o)).
+Proof.
+  intros H. unfold cancelled. destruct failed.
+  - destruct (failed_flag_sound m d n hc o H) as [Hn|[Ht He]].
+    + rewrite Hn. reflexivity.
+    + rewrite Ht, He, Z.eqb_refl. cbn [is_excl andb]. rewrite !orb_true_r. reflexivity.
+  - rewrite andb_false_r. reflexivity.
+Qed.
